@@ -54,6 +54,16 @@ func NewWorld(p *sdl.Program, cfg map[string]string) *World {
 	for _, t := range p.Types {
 		w.Types[t.Name] = t
 	}
+	// decorator types: everything the decorated type is, except that type itself
+	for _, pr := range p.Procs {
+		for _, ru := range pr.Rules {
+			if base := w.Types[sdl.DecoBase(ru.SubType)]; sdl.IsDeco(ru.SubType) && base != nil {
+				d := *base
+				d.Name = ru.SubType
+				w.Types[ru.SubType] = &d
+			}
+		}
+	}
 	for _, i := range p.Instances {
 		w.Insts[i.ID] = i
 		n := p.NameOf(i)
